@@ -208,11 +208,20 @@ func c12Build(s GSpec) gBuilt {
 				rows[i].Parent = &rows[0]
 			}
 		}
-		v := map[string]any{"twice": []any{m, m, in, in}, "selfslice": sl, "rows": rows}
+		// a pointer to the first field of the struct it sits in has the address of the struct itself
+		type inner struct{ K int }
+		type outer struct {
+			In inner
+			P  *inner
+		}
+		o := &outer{In: inner{K: 4}}
+		o.P = &o.In
+		v := map[string]any{"twice": []any{m, m, in, in}, "selfslice": sl, "rows": rows, "firstfield": o}
 		r0 := vObj("N", vInt(0), "Parent", vNil())
 		model := vObj("twice", vArr(vObj("k", vBool(true)), vObj("k", vBool(true)), vArr(vInt(1), vInt(2)), vArr(vInt(1), vInt(2))),
 			"selfslice", vArr(vInt(7), vInt(8), vArr(vInt(7))),
-			"rows", vArr(r0, vObj("N", vInt(1), "Parent", r0), vObj("N", vInt(2), "Parent", r0)))
+			"rows", vArr(r0, vObj("N", vInt(1), "Parent", r0), vObj("N", vInt(2), "Parent", r0)),
+			"firstfield", vObj("In", vObj("K", vInt(4)), "P", vObj("K", vInt(4))))
 		return gBuilt{reflect.ValueOf(v), model, true, false}
 	}
 	if s.K == "casemap" {
